@@ -30,12 +30,18 @@ const (
 	bCfgReject     = "configure-rejected"        // the hook asks for an event without handler; the runtime end keeps the connection
 	bCfgErrorDrop  = "configure-error-then-drop" // the hook fails; the runtime end drops the connection 50 ms after the error
 	bCfgRejectDrop = "configure-rejected-then-drop"
+	// the plugin's Configure hook takes 300 ms, the runtime end drops the connection 100 ms after sending Configure:
+	// Start gives up, the hook reports afterwards
+	bDropInSlowCfg = "drop-in-slow-configure"
+	// the runtime end configures the plugin before answering RegisterPlugin, then refuses the registration
+	bCfgThenRefuse = "configure-then-refuse"
 )
 
 var behTerm = map[string]string{
 	bHealthy: "BHealthy", bUnreachable: "BUnreachable", bRefuse: "BRefuse", bDropInReg: "BDropInReg",
 	bSilentReg: "BSilentReg", bDropAfterReg: "BDropAfterReg", bCfgError: "BCfgError", bDropInCfg: "BDropAfterCfg",
 	bCfgReject: "BCfgReject", bCfgErrorDrop: "BCfgErrorDrop", bCfgRejectDrop: "BCfgRejectDrop",
+	bDropInSlowCfg: "BDropInSlowCfg", bCfgThenRefuse: "BCfgThenRefuse",
 }
 
 type lifeOp struct {
@@ -80,8 +86,12 @@ type lifeObs struct {
 	Closes  int    `json:"closes"`
 	Waiting int    `json:"waiting"`
 	Running int    `json:"running"` // Run calls still blocked
-	Err     string `json:"err,omitempty"`
-	Ms      int64  `json:"ms"`
+	// on the last observation of a sequence: what the plugin's handlers got from the stub's accessors
+	AccessorCalls    int    `json:"accessor_calls,omitempty"`
+	AccessorStuck    int    `json:"accessor_calls_not_returned,omitempty"`
+	AccessorMismatch string `json:"accessor_mismatch,omitempty"`
+	Err              string `json:"err,omitempty"`
+	Ms               int64  `json:"ms"`
 }
 
 func (o lifeObs) term() string {
@@ -110,12 +120,27 @@ func (r *rig) setBehaviour2(b string) {
 		sc.Register = "drop"
 		r.unreachable.Store(false)
 		r.pl.failCfg.Store(false)
+		r.pl.cfgDelayMs.Store(0)
 		r.rt.setScript(sc)
 	case bSilentReg:
 		sc := healthyScript()
 		sc.Register = "silent"
 		r.unreachable.Store(false)
 		r.pl.failCfg.Store(false)
+		r.pl.cfgDelayMs.Store(0)
+		r.rt.setScript(sc)
+	case bDropInSlowCfg, bCfgThenRefuse:
+		sc := healthyScript()
+		r.unreachable.Store(false)
+		r.pl.failCfg.Store(false)
+		r.pl.cfgMask.Store(0)
+		r.pl.cfgDelayMs.Store(0)
+		if b == bDropInSlowCfg {
+			sc.DropDuringCfgMs = 100
+			r.pl.cfgDelayMs.Store(300)
+		} else {
+			sc.Register = "configure-then-refuse"
+		}
 		r.rt.setScript(sc)
 	case bCfgReject, bCfgErrorDrop, bCfgRejectDrop:
 		sc := healthyScript()
@@ -123,6 +148,7 @@ func (r *rig) setBehaviour2(b string) {
 			sc.AfterCfgErr = "drop"
 		}
 		r.unreachable.Store(false)
+		r.pl.cfgDelayMs.Store(0)
 		r.pl.failCfg.Store(b == bCfgErrorDrop)
 		r.pl.cfgMask.Store(0)
 		if b != bCfgErrorDrop {
@@ -381,6 +407,10 @@ func runLife(ops []lifeOp, tm lifeTiming) ([]lifeObs, error) {
 			return nil, fmt.Errorf("unknown op %q", op.Op)
 		}
 		o.Ms = time.Since(t0).Milliseconds()
+		// a Configure hook that is still running (the slow one) reports when it is done: wait for that, bounded
+		for dl := time.Now().Add(tm.block); r.pl.cfgReturned.Load() < r.pl.cfgs.Load() && time.Now().Before(dl); {
+			time.Sleep(2 * time.Millisecond)
+		}
 		o.Started, o.Closes, o.Waiting, o.Running = r.quiesce(tm, waits, runs, locked)
 		if o.Started == "blocked" && o.Class != "blocked" {
 			// the operation returned but the lock is held: report it as it is, the sequence ends here
@@ -389,6 +419,13 @@ func runLife(ops []lifeOp, tm lifeTiming) ([]lifeObs, error) {
 		obs = append(obs, o)
 		if locked {
 			break
+		}
+	}
+	if n := len(obs); n > 0 {
+		obs[n-1].AccessorCalls = int(r.pl.accessed.Load())
+		obs[n-1].AccessorStuck = int(r.pl.inAccessor.Load())
+		if bad, _ := r.pl.accessBad.Load().(string); bad != "" {
+			obs[n-1].AccessorMismatch = bad
 		}
 	}
 	return obs, nil
@@ -533,7 +570,8 @@ func lifeSequences(c *hx.Ctx) [][]lifeOp {
 	}
 	seqs = append(old, withLose...)
 
-	faults := []string{bUnreachable, bRefuse, bDropInReg, bDropAfterReg, bCfgError, bDropInCfg, bCfgReject, bCfgErrorDrop, bCfgRejectDrop}
+	faults := []string{bUnreachable, bRefuse, bDropInReg, bDropAfterReg, bCfgError, bDropInCfg, bCfgReject, bCfgErrorDrop, bCfgRejectDrop,
+		bDropInSlowCfg, bCfgThenRefuse}
 	for _, f := range faults {
 		F := "start(" + f + ")"
 		add(F)
@@ -587,6 +625,14 @@ func lifeSequences(c *hx.Ctx) [][]lifeOp {
 			add("run(" + f + ") run(healthy) wait stop")
 			add("run(healthy) lose run(" + f + ") S stop")
 		}
+	}
+	// a Configure result that no Start consumed (slow hook overtaken by a drop; Configure before a refused registration),
+	// then a Start against a runtime end that registers the plugin and drops without ever configuring it: must fail
+	for _, f := range []string{bDropInSlowCfg, bCfgThenRefuse} {
+		add("start(" + f + ") start(" + bDropAfterReg + ")")
+		add("start(" + f + ") start(" + bDropAfterReg + ") S stop")
+		add("S stop start(" + f + ") start(" + bDropAfterReg + ") run(healthy) lose")
+		add("run(" + f + ") run(" + bDropAfterReg + ")")
 	}
 	add("startstart(unreachable,healthy) stop")
 	add("S lose startstart(" + bCfgError + "," + bRefuse + ") S")
@@ -684,6 +730,12 @@ func driveLife(c *hx.Ctx) error {
 			bt = append(bt, o.term())
 		}
 		sh.Add(fmt.Sprintf("{| lc_ops := %s; lc_obs := %s |}", coqfmt.List(ot), coqfmt.List(bt)), raw)
+		if n := len(obs); n > 0 {
+			c.Count("handler-accessor-calls", obs[n-1].AccessorCalls)
+			if obs[n-1].AccessorMismatch != "" {
+				c.ImplFail("life", "C16: a handler asked the stub for the time-outs during the handshake and did not get what the runtime sent: "+obs[n-1].AccessorMismatch, raw)
+			}
+		}
 		if dev != "" {
 			c.ImplFail("life", "C16: "+dev, raw)
 			c.Count("deviation/"+slug, 1)
@@ -719,7 +771,10 @@ func driveLife(c *hx.Ctx) error {
 		"connection on receipt of RegisterPlugin, never answers it (registration time-out 400 ms, set by an earlier Configure), drops 50 ms after " +
 		"answering it and before Configure, gets an error for Configure - because the plugin's hook fails or because the hook asks for an event " +
 		"without handler and the stub refuses - and then either KEEPS the connection open for the rest of the run or drops it 50 ms later, " +
-		"or drops once it has the Configure response. Sequences: every " +
+		"or drops once it has the Configure response; drops 100 ms after sending Configure while the plugin's Configure hook takes 300 ms (the hook " +
+		"reports after Start has given up); configures the plugin before answering RegisterPlugin and then refuses. The plugin's Configure and " +
+		"Synchronize handlers call the stub's RequestTimeout() and RegistrationTimeout() as a plugin may (they must return, with the values the " +
+		"runtime end sent). Sequences: every " +
 		"sequence of Start(healthy)/Stop/Wait of length <= 4 and with connection loss of length <= 3; for every fault f: f alone, f then " +
 		"healthy restart(s), f after Stop / after a loss (also followed by Stop and a healthy Start), f in an immediate restart; Stop-then-immediate-Start repeated (the outcome depends on the " +
 		"lock race; both schedules are in the model's prediction set); a Start failing after its client exists (refused, dropped in / after " +
